@@ -40,6 +40,8 @@ pub struct MLayer {
     pub env: Vec<EnvEntry>,
     pub execd: BTreeMap<String, Vec<u8>>,
     pub plain: BTreeMap<String, Vec<u8>>,
+    /// symbolic links inside the layer: relative path -> target (dangling targets included)
+    pub links: BTreeMap<String, String>,
 }
 
 impl MLayer {
@@ -173,14 +175,22 @@ pub fn compare_layer(sigp: &str, layers_dir: &Path, name: &str, l: &MLayer) -> C
     if l.dir {
         let snap = fsutil::snapshot(&dir);
         let mut files: BTreeMap<Vec<u8>, Vec<u8>> = BTreeMap::new();
+        let mut links: BTreeMap<String, String> = BTreeMap::new();
         for (p, e) in &snap {
             match e.kind {
                 Kind::File => {
                     files.insert(p.clone(), e.data.clone());
                 }
                 Kind::Dir => {}
+                Kind::Symlink => {
+                    links.insert(fsutil::show_path(p), fsutil::show_path(&e.data));
+                }
                 _ => return Err(Fail::new(format!("{sigp}:unexpected-entry-kind"), format!("layer {name:?}: {:?} is {:?}", fsutil::show_path(p), e.kind))),
             }
+        }
+        if links != l.links {
+            let sig = if l.links.is_empty() && l.expected_files().is_empty() { format!("{sigp}:empty-layer-keeps-files") } else { format!("{sigp}:layer-symlinks-differ") };
+            return Err(Fail::new(sig, format!("layer {name:?}: symlinks on disk {links:?}, expected {:?}", l.links)));
         }
         let want = l.expected_files();
         if files != want {
